@@ -86,6 +86,12 @@ def check_results(ctx: Ctx, results, exprs=None, meta=None):
             groups = {}
             for row in inc + exc:
                 if row['mut_position'] == '-1':
+                    # the no-op row: <transcript>_<contig>_no_op with the _rc suffix of its row
+                    tr = f"{row['transcript_id']}.{row['gene_id']}" if row['transcript_id'] and row['gene_id'] else 'NO_TRANSCRIPT'
+                    en = f"{tr}_{row['ref_chr']}_no_op" + ('_rc' if (d['opts'].get('revcomp') and row['ref_strand'] == '-') else '')
+                    ctx.count('noop_names')
+                    if t['sge'] and row['oligo_name'] != en:
+                        ctx.violation('spec_violation', f"name_format: no-op oligo_name {row['oligo_name']} but its fields give {en}", dict(case, kind='name_format'))
                     continue
                 en = expected_name(d, row, None if t['sge'] else name.rsplit('_', 1)[0])
                 if row['oligo_name'] != en:
@@ -111,7 +117,7 @@ def designs(ctx: Ctx, n: int):
         # reference coordinates
         d = gen.gen_cdna(ctx.rng, {}) if i % 4 == 3 else gen.gen_sge(ctx.rng, {'p_bg': 0.35, 'bg_upstream': True, 'bg_kinds': ['snv', 'ins', 'del', 'del'],
                                                                                'allow_junction_pam': False, 'p_custom': 0.6,
-                                                                               'non_cds_mut': ['snv', '1del', '2del0', '3del1', '5del3'], 'p_no_op': 0.6})
+                                                                               'non_cds_mut': ['snv', '1del', '2del0', '3del1', '5del3'], 'p_no_op': 0.7, 'p_pam': 0.8, 'n_pam': [1, 2, 3]})
         if d['mode'] == 'sge' and i % 6 == 1:
             # the same design once more on a second contig: the reported counts of discarded oligonucleotides cover the whole run
             d['extra_contigs'] = {}
